@@ -62,7 +62,22 @@ func (a *App) EndBlock(req abci.RequestEndBlock) abci.ResponseEndBlock {
 // ---------------------------------------------------------------------------------------------
 // node = the stores / executor of one tendermint instance
 
+// EvPool is the node's evidence pool: empty, with a hook that runs inside BlockExecutor.ValidateBlock (the only place a
+// block-sync reactor's own routine can be stopped between looking at a block and committing to it).
+type EvPool struct {
+	sm.EmptyEvidencePool
+	Hook func()
+}
+
+func (p *EvPool) CheckEvidence(types.EvidenceList) error {
+	if p.Hook != nil {
+		p.Hook()
+	}
+	return nil
+}
+
 type Node struct {
+	Ev         *EvPool
 	BlockStore *store.BlockStore
 	StateStore sm.Store
 	BlockExec  *sm.BlockExecutor
@@ -95,8 +110,9 @@ func (c *Chain) NewNodeOn(blockDB, stateDB dbm.DB, app abci.Application) *Node {
 	if err != nil {
 		panic(err)
 	}
-	be := sm.NewBlockExecutor(ss, log.NewNopLogger(), conns.Consensus(), mpmock.Mempool{}, sm.EmptyEvidencePool{})
-	return &Node{BlockStore: store.NewBlockStore(blockDB), StateStore: ss, BlockExec: be, Genesis: st, Conns: conns}
+	ev := &EvPool{}
+	be := sm.NewBlockExecutor(ss, log.NewNopLogger(), conns.Consensus(), mpmock.Mempool{}, ev)
+	return &Node{Ev: ev, BlockStore: store.NewBlockStore(blockDB), StateStore: ss, BlockExec: be, Genesis: st, Conns: conns}
 }
 
 func (n *Node) Close() { _ = n.Conns.Stop() }
